@@ -305,15 +305,24 @@ def run(ctx):
     # ------------------------------------------------------------------ programs
     n_core = 12000 if thorough else 380
     n_wild = 8000 if thorough else 230
+    # a fixed share of the budget goes to the sharp dimensions (gen/storegen.py focus=True): expression
+    # SHAPES (model-compared) and locals / parameters / results of EVERY type (oracle)
     progs = []
     g = G.StoreGen(rng)
-    for _ in range(n_core):
-        progs.append(g.program())
+    gf = G.StoreGen(rng, focus=True)
+    for k in range(n_core):
+        progs.append((gf if k % 3 == 0 else g).program())
     wg = G.WildGen(rng)
-    wild = [wg.program() for _ in range(n_wild)]
-    stats = dict(g.stats)
-    for k, v in wg.stats.items():
-        stats["wild:" + k] = v
+    wgf = G.WildGen(rng, focus=True)
+    wild = [(wgf if k % 2 == 0 else wg).program() for k in range(n_wild)]
+    stats = {}
+    dims = {}
+    for pre, gen in (("", g), ("focus:", gf), ("wild:", wg), ("wild-focus:", wgf)):
+        for k, v in gen.stats.items():
+            if k.startswith("dim:"):
+                dims[k[4:]] = dims.get(k[4:], 0) + v
+            else:
+                stats[pre + k] = v
 
     violations_before = len(ctx.violations)
     # ------------------------------------------------------------------ corpus first (fixed VCL programs with their own expectations)
@@ -405,6 +414,8 @@ def run(ctx):
         "statement_snapshots_checked_by_oracle": n_pairs,
         "model_runs": len(mreqs), "model_agree": agree, "model_status": mstat,
         "log_lines_cross_checked": n_loglines,
+        "dimension_counts": dict(sorted(dims.items())),
+        "budget_shares": {"core programs with shape focus": "1/3", "wild programs with shape + all-types focus": "1/2"},
         "generator_stats": dict(sorted(stats.items())),
     })
     return ctx.finish(
